@@ -51,6 +51,7 @@ package tuf
 //@ func ext:(internal/tuf.GitHubApp).IsTrusted -> (b)
 //@   trusted
 //@   pure
+//@   ensures b == appTrusted(self)
 
 //@ # ---- C02 / C06: metadata objects read by the policy code are treated as immutable values ----
 //@ # (what a decoded root / rule file / rule answers is a function of the object; the policy code never edits the
@@ -96,3 +97,81 @@ package tuf
 //@   trusted
 //@   pure
 //@   ensures n == tmVersion(self)
+
+//@ # rules (delegations) as immutable values
+//@ spec rID(r Rule) string
+//@ spec rMatches(r Rule, path string) bool
+//@ spec rThreshold(r Rule) int
+//@ spec rPrincipalIDs(r Rule) *set.Set[string]
+//@ spec rTerminating(r Rule) bool
+//@ func ext:(internal/tuf.Rule).ID -> (n)
+//@   trusted
+//@   pure
+//@   ensures n == rID(self)
+//@ func ext:(internal/tuf.Rule).Matches -> (m)
+//@   trusted
+//@   pure
+//@   ensures m == rMatches(self, path)
+//@ func ext:(internal/tuf.Rule).GetThreshold -> (n)
+//@   trusted
+//@   pure
+//@   ensures n == rThreshold(self)
+//@ func ext:(internal/tuf.Rule).GetPrincipalIDs -> (ids)
+//@   trusted
+//@   pure
+//@   # A-wfmeta: a decoded rule has a principal-ID set
+//@   ensures ids == rPrincipalIDs(self) && ids != nil && ids.contents != nil
+//@ func ext:(internal/tuf.Rule).IsLastTrustedInRuleFile -> (b)
+//@   trusted
+//@   pure
+//@   ensures b == rTerminating(self)
+//@ func ext:(internal/tuf.Rule).GetProtectedNamespaces -> (ps)
+//@   trusted
+//@   pure
+
+//@ spec tmHasPrincipal(t TargetsMetadata, id string) bool
+//@ spec tmPrincipal(t TargetsMetadata, id string) Principal
+//@ func ext:(internal/tuf.TargetsMetadata).GetRules -> (rs)
+//@   trusted
+//@   pure
+//@   ensures rs == tmRules(self)
+//@   ensures forall i :: 0 <= i && i < len(rs) ==> notNil(rs[i])
+//@ func ext:(internal/tuf.TargetsMetadata).GetPrincipals -> (m)
+//@   trusted
+//@   assigns fresh(map map[string]Principal)
+//@   ensures m != nil && fresh(m)
+//@   ensures forall k string :: has(m, k) <==> tmHasPrincipal(self, k)
+//@   ensures forall k string :: has(m, k) ==> m[k] == tmPrincipal(self, k) && notNil(m[k])
+
+//@ func ext:(internal/tuf.RootMetadata).GetGitHubAppEntries -> (m, err)
+//@   trusted
+//@   pure
+//@ func ext:(internal/tuf.RootMetadata).IsGitHubAppApprovalTrusted -> (b)
+//@   trusted
+//@   pure
+//@ func ext:(internal/tuf.RootMetadata).GetGitHubAppPrincipals -> (ps, err)
+//@   trusted
+//@   pure
+//@ func ext:(internal/tuf.RootMetadata).GetControllerRepositories -> (rs)
+//@   trusted
+//@   pure
+//@   ensures forall i :: 0 <= i && i < len(rs) ==> notNil(rs[i])
+//@ func ext:(internal/tuf.OtherRepository).GetName -> (n)
+//@   trusted
+//@   pure
+//@ func ext:(internal/tuf.OtherRepository).GetLocation -> (n)
+//@   trusted
+//@   pure
+//@ func ext:(internal/tuf.OtherRepository).GetInitialRootPrincipals -> (ps)
+//@   trusted
+//@   pure
+
+//@ spec appTrusted(a GitHubApp) bool
+//@ spec appThreshold(a GitHubApp) int
+//@ func ext:(internal/tuf.GitHubApp).GetThreshold -> (n)
+//@   trusted
+//@   pure
+//@   ensures n == appThreshold(self)
+//@ func ext:(internal/tuf.GitHubApp).GetPrincipalIDs -> (ids)
+//@   trusted
+//@   pure
